@@ -186,6 +186,33 @@ def group_types_from_source():
     return out
 
 
+def group_types_from_classification():
+    """the type of every group the real classifier (group.is_group) produces on the ligand atom environments of C01 (SYBYL type x
+    number and elements of heavy neighbours, incl. four heavy neighbours on an sp3 nitrogen): catches types that are computed
+    rather than written out in the source"""
+    import propka.group as G
+    from .c01 import LIGAND_CASES
+    p = H.params()
+    out = {}
+    for sy, nheavy, els, cls, pk, q in LIGAND_CASES:
+        a = H.atom(sy[0] + '1', 'LIG', 7, 'A', 0.0, 0.0, 0.0, rec='hetatm', element=sy.split('.')[0])
+        a.sybyl_type = sy
+        a.sybyl_assigned = True
+        a.is_protonated = True
+        conf = H.conformation()
+        conf.add_atom(a)
+        for i, el in enumerate(els):
+            b = H.atom(el + str(i + 2), 'LIG', 7, 'A', 1.4 * (i + 1), 0.0, 0.0, rec='hetatm', element=el)
+            b.sybyl_type = el + '.3'
+            conf.add_atom(b)
+            a.bonded_atoms.append(b)
+            b.bonded_atoms.append(a)
+        g = G.is_group(p, a)
+        if g is not None:
+            out.setdefault(g.type, []).append('%s with %d heavy neighbours' % (sy, nheavy))
+    return out
+
+
 # types that never reach the pair loop of set_determinants with the shipped configuration, with the reason
 EXCLUDED = {
     'ION': 'ions are handled by set_ion_determinants, never by the interaction matrix',
@@ -243,7 +270,10 @@ def o_file_with_extra_cutoff_groups(ctx):
 def o_shipped(ctx):
     p = H.params(fresh=True)
     types = group_types_from_source()
-    reach = sorted(t for t in types if t not in EXCLUDED)
+    # ... and the types the classifier actually hands out on the ligand environments (a type may be computed, not written out)
+    produced = group_types_from_classification()
+    ctx.notes['types produced by the classifier'] = sorted(produced)
+    reach = sorted(t for t in set(types) | set(produced) if t not in EXCLUDED)
     ctx.notes['types'] = reach
     ctx.claim('ligand-typing-is-groups', p.ligand_typing == 'groups')
     mapped = set(p.protein_group_mapping.values())
@@ -298,7 +328,7 @@ def obligations(tier):
                    claim_doc='x_squared == x^2 after any sequence of assignments to either form'),
         Obligation('O4-parse-line-dispatch', o_parse_line, code=[P + 'Parameters.parse_line', P + 'Parameters.parse_*'],
                    bounds='15 concrete lines (one per declared field kind), 3 orders', kind='table-check'),
-        Obligation('O5-shipped-file', o_shipped, code=['propka/propka.cfg', 'propka/group.py (AST scan of self.type assignments)',
+        Obligation('O5-shipped-file', o_shipped, code=['propka/propka.cfg', 'propka/group.py (AST scan of self.type assignments)', 'propka/group.py:is_group (types produced on the ligand environments of C01)',
                                                       P + 'InteractionMatrix.get_value', P + 'PairwiseMatrix.get_value'],
                    bounds='exhaustive over the group types the current source can create and that reach set_determinants; '
                           'excluded with reason: %s' % '; '.join('%s (%s)' % kv for kv in sorted(EXCLUDED.items())),
